@@ -5,3 +5,4 @@ import PtaSpec.LayerSem
 import PtaSpec.LabelSem
 import PtaSpec.ScanSem
 import PtaSpec.DiagramSem
+import PtaSpec.GlobSem
